@@ -2039,6 +2039,11 @@ class Interp:
             if isinstance(v, Inst) and v.cls is not None:
                 c, m = self.prog.find_method(v.cls, '__enter__')
                 c2, m2 = self.prog.find_method(v.cls, '__exit__')
+                if (m is None or m2 is None) and getattr(v.native, 'abs_exit', None) is not None:
+                    exits.append((v.native, None))      # the context protocol of a modelled library base class; `as` binds the object itself
+                    if item.optional_vars is not None:
+                        self.assign(item.optional_vars, v, fr)
+                    continue
                 if m is None or m2 is None:
                     raise Fail(f'with over an object without __enter__/__exit__ line {st.lineno}')
                 exits.append((v, FuncRef(m2, c2.module, c2)))
